@@ -610,16 +610,18 @@ class ReverseWeighting(WeightingModel):
             self.subscorer = subscorer
 
         def supports_block_quality(self):
-            return self.subscorer.supports_block_quality()
+            # The negation of the wrapped scorer's upper bound is a lower
+            # bound on the reversed scores, not an upper bound
+            return False
 
         def score(self, matcher):
             return 0 - self.subscorer.score(matcher)
 
         def max_quality(self):
-            return 0 - self.subscorer.max_quality()
+            return float("inf")
 
         def block_quality(self, matcher):
-            return 0 - self.subscorer.block_quality(matcher)
+            return float("inf")
 
 
 #class PositionWeighting(WeightingModel):
